@@ -145,6 +145,12 @@ class HasPatcher:
         return False
 
     @property
+    def has_syscall(self) -> bool:
+        if 'io' in self.markers:
+            return True
+        return 'syscall' in self.markers
+
+    @property
     def has_write(self) -> bool:
         if 'io' in self.markers:
             return True
